@@ -431,7 +431,7 @@ pub fn run(opts: &Opts) {
             out["wire_bytes"] = json!(hex::encode(&bytes));
             let dvs: Vec<Option<u32>> = (0..t.block_count()).map(|i| t.block_version(i).ok()).collect();
             let case = json!({"op": "chain", "mutation": "none", "stage": k, "history": h.ops, "root": pubkey_json(&h.root.public()),
-                "root_alg": h.root.public().to_proto().algorithm, "datalog_versions": dvs,
+                "root_alg": h.root.public().to_proto().algorithm, "datalog_versions": dvs, "raw": hex::encode(&bytes),
                 "honest": honest_j, "subject": wire_json(&w), "secrets": secrets_json(&[&h, &h2], &[&w])});
             *stats.entry(format!("honest/accept:{}", out["accept"])).or_insert(0) += 1;
             sink.put(&case, &out);
